@@ -9,24 +9,24 @@ import (
 )
 
 type zzImpl struct {
-	calls   int
-	values  []int32
-	pt      Point
-	dx      int32
-	shape   Shape
-	mp      map[string]int32
-	val     value.Value
-	vv      [][]uint16
-	retSum  int64
-	retPt   Point
-	retPts  []Point
-	retMap  map[string]int32
-	retVal  value.Value
-	retVV   [][]uint16
+	calls  int
+	values []int32
+	pt     Point
+	dx     int32
+	shape  Shape
+	mp     map[string]int32
+	val    value.Value
+	vv     [][]uint16
+	retSum int64
+	retPt  Point
+	retPts []Point
+	retMap map[string]int32
+	retVal value.Value
+	retVV  [][]uint16
 }
 
 func (z *zzImpl) Activate(activation bus.Activation, helper ContainersSignalHelper) error { return nil }
-func (z *zzImpl) OnTerminate()                                                             {}
+func (z *zzImpl) OnTerminate()                                                            {}
 func (z *zzImpl) Sum(values []int32) (int64, error) {
 	z.calls++
 	z.values = values
